@@ -172,8 +172,9 @@ class ParallelTemperedSampler(BaseSampler):
         """
         # we'll create a chain data instance to stack the dictionaries
         d = getattr(self.chains[0], attr)
+        # keep the temperature axis also when there is a single temperature
         out = ChainData(list(d.keys()), dtypes=detect_dtypes(d),
-                        ntemps=self.ntemps)
+                        ntemps=self.ntemps, keepdims=True)
         out.extend(self.nchains)
         for ii, chain in enumerate(self.chains):
             out[ii] = getattr(chain, attr)
